@@ -390,7 +390,9 @@ func (env *TravEnv) Run(ctl TravCtl, matching bool) ([]TravEvent, string) {
 // the last entries are not valid UTF-8: a lone 0xff, latin-1 "café", a multi-byte sequence cut short,
 // and an invalid byte in the middle (Go strings, map keys and path segments are byte strings)
 var TravKeys = []string{"a", "b", "c", "x", "0", "1", "2", "01", "+1", "-1", "", "a/b", "é",
-	"\xff", "caf\xe9", "\xe2\x82", "a\xffb", "€\xe2"}
+	"\xff", "caf\xe9", "\xe2\x82", "a\xffb", "€\xe2",
+	// JSON-Pointer look-alikes: a path segment is taken verbatim, "~0" / "~1" are not escapes
+	"~", "~0", "~1", "~01", "a~1b", "PROGRA~1"}
 var travStrs = []string{"", "a", "hello", "hello world", "é€x", "0123456789", "\xff\xfe", "/"}
 
 type TravGen struct {
@@ -614,6 +616,10 @@ type SelGen struct {
 }
 
 var selLimits = []int64{0, 1, 2, 5, -3}
+
+// number of fields of a generated ExploreFields clause: 1-9, biased to 3, 5, 6, 7 (a slice grown by append to such a
+// length has spare capacity, which is what makes an aliased interest list observable)
+var fieldCounts = []int{1, 1, 2, 2, 3, 3, 3, 4, 5, 5, 6, 6, 7, 7, 8, 9}
 var selBounds = []int64{-7, -2, -1, 0, 1, 2, 3, 5, 100}
 
 func (g *SelGen) matcher() *Val {
@@ -640,6 +646,31 @@ func (g *SelGen) fieldKey() string {
 	return TravKeys[g.R.Intn(len(TravKeys))]
 }
 
+// wideFields: a fields clause with 3, 5, 6 or 7 fields whose continuations are mostly leaves (edge / matcher).
+func (g *SelGen) wideFields(depth int, inRec bool) *Val {
+	n := []int{3, 5, 6, 7}[g.R.Intn(4)]
+	fm := &Val{Kind: KMap, M: []Entry{}}
+	seen := map[string]bool{}
+	for i := 0; i < 3*n && len(fm.M) < n; i++ {
+		key := g.fieldKey()
+		if seen[key] {
+			continue
+		}
+		seen[key] = true
+		var next *Val
+		switch {
+		case inRec && g.R.Chance(70):
+			next = g.edge()
+		case g.R.Chance(70) || depth >= g.MaxDepth:
+			next = g.matcher()
+		default:
+			next = g.Gen(depth+1, inRec)
+		}
+		fm.M = append(fm.M, Entry{key, next})
+	}
+	return m1("f", m1("f>", fm))
+}
+
 // Top generates a whole selector: mostly from the grammar, sometimes one of the common idioms
 // (walk everything / walk to a depth) wrapped around or unioned with a grammar-generated part.
 func (g *SelGen) Top() *Val {
@@ -659,6 +690,25 @@ func (g *SelGen) Top() *Val {
 		return m1("R", Map(Entry{"l", lim()}, Entry{":>", m1("|", List(g.Gen(2, true), all(g.edge())))}))
 	case 3: // a > a > S
 		return all(all(g.Gen(2, false)))
+	case 4: // R(lim, |[a>F, f{x: f{y: .}, ...}]): one compiled fields clause F shared by unions formed at different depths
+		if g.R.Chance(50) {
+			extra := &Val{Kind: KMap, M: []Entry{}}
+			seen := map[string]bool{}
+			for i := 0; i < 2+g.R.Intn(2); i++ {
+				x := g.fieldKey()
+				if seen[x] {
+					continue
+				}
+				seen[x] = true
+				extra.M = append(extra.M, Entry{x, m1("f", m1("f>", Map(Entry{g.fieldKey(), g.matcher()})))})
+			}
+			first := all(g.wideFields(2, true))
+			if g.R.Chance(30) {
+				first = m1("f", m1("f>", Map(Entry{g.fieldKey(), g.wideFields(2, true)})))
+			}
+			return m1("R", Map(Entry{"l", lim()}, Entry{":>", m1("|", List(first, m1("f", m1("f>", extra))))}))
+		}
+		return g.Gen(0, false)
 	default:
 		return g.Gen(0, false)
 	}
@@ -701,7 +751,7 @@ func (g *SelGen) Gen(depth int, inRec bool) *Val {
 	case k < 30:
 		return m1("a", m1(">", g.Gen(depth+1, inRec)))
 	case k < 46:
-		n := 1 + g.R.Intn(3)
+		n := fieldCounts[g.R.Intn(len(fieldCounts))]
 		fm := &Val{Kind: KMap, M: []Entry{}}
 		seen := map[string]bool{}
 		for i := 0; i < n; i++ {
@@ -727,6 +777,10 @@ func (g *SelGen) Gen(depth int, inRec bool) *Val {
 		}
 		u := &Val{Kind: KList, L: []*Val{}}
 		for i := 0; i < n; i++ {
+			if i == 0 && g.R.Chance(30) {
+				u.L = append(u.L, g.wideFields(depth+1, inRec))
+				continue
+			}
 			u.L = append(u.L, g.Gen(depth+1, inRec))
 		}
 		if inRec && g.R.Chance(g.BareEdgePct) {
@@ -998,4 +1052,89 @@ func (env *TravEnv) RunCapped(matching bool, max int) ([]TravEvent, string) {
 		return evs, "panic:other"
 	}
 	return evs, WalkErrClass(err)
+}
+
+// GenSharedClauseCase builds a (selector, tree) pair in which one compiled ExploreFields clause F (3, 5, 6 or 7 fields,
+// each continuing with a recursion edge) becomes the first member of two different unions, the second one formed for a
+// descendant while the children of the first node are still being walked:
+//
+//	R(none, union(all(F), fields{x1: fields{y1: match}, x2: fields{y2: match}}))  over  {x1: {f: {x2: {y2: ..}}, y1: ..}}
+//
+// (f one of F's fields).  Interests() must hand out a list nobody else writes to; an interest list that aliases the
+// compiled clause loses the visit of x1/y1.  Noise entries and links are mixed in.
+func GenSharedClauseCase(r *Rng) *TravCase {
+	pool := append([]string{}, TravKeys...)
+	perm := r.Perm(len(pool))
+	next := 0
+	key := func() string {
+		for {
+			k := pool[perm[next%len(perm)]]
+			next++
+			if k != "" {
+				return k
+			}
+		}
+	}
+	nf := []int{3, 5, 6, 7}[r.Intn(4)]
+	var fkeys []string
+	F := &Val{Kind: KMap, M: []Entry{}}
+	for i := 0; i < nf; i++ {
+		k := key()
+		fkeys = append(fkeys, k)
+		F.M = append(F.M, Entry{k, SelEdge()})
+	}
+	x1, x2, y1, y2 := key(), key(), key(), key()
+	sel := SelRec(SelNoLimit, SelUnion(
+		SelAll(m1("f", m1("f>", F))),
+		SelFields(Entry{x1, SelFields(Entry{y1, SelMatcher()})}, Entry{x2, SelFields(Entry{y2, SelMatcher()})})), "")
+	if r.Chance(30) {
+		sel = SelRec(5, SelUnion(
+			SelAll(m1("f", m1("f>", F))),
+			SelFields(Entry{x1, SelFields(Entry{y1, SelMatcher()})}, Entry{x2, SelFields(Entry{y2, SelMatcher()})}),
+			SelMatcher()), "")
+	}
+	store := NewTravStore()
+	tc := &TravCase{Sel: sel}
+	put := func(v *Val) *Val { // sometimes behind a link
+		if r.Chance(25) {
+			c, lv := store.Put(v)
+			dup := false
+			for _, b := range tc.Blocks {
+				if b.Cid == c {
+					dup = true
+				}
+			}
+			if !dup {
+				tc.Blocks = append(tc.Blocks, TravBlock{c, lv})
+			}
+			return Link(c)
+		}
+		return v
+	}
+	leaf := func() *Val { return Str([]string{"under", "x", "", "leaf"}[r.Intn(4)]) }
+	f := fkeys[r.Intn(len(fkeys))]
+	inner := Map(Entry{y2, leaf()})
+	if r.Chance(40) {
+		inner.M = append(inner.M, Entry{fkeys[r.Intn(len(fkeys))], Map(Entry{x1, Map(Entry{y1, leaf()})})})
+	}
+	mid := Map(Entry{x2, put(inner)})
+	if r.Chance(40) {
+		mid.M = append(mid.M, Entry{x1, Map(Entry{y1, leaf()})})
+	}
+	under := Map(Entry{f, put(mid)}, Entry{y1, leaf()})
+	if r.Chance(50) { // a second field of F below x1, walked after the first
+		g := fkeys[r.Intn(len(fkeys))]
+		if g != f {
+			under.M = append(under.M, Entry{g, Map(Entry{x2, Map(Entry{y2, leaf()})})})
+		}
+	}
+	root := Map(Entry{x1, put(under)})
+	if r.Chance(50) {
+		root.M = append(root.M, Entry{x2, Map(Entry{y2, leaf()}, Entry{fkeys[0], Map(Entry{x1, Map(Entry{y1, leaf()})})})})
+	}
+	if r.Chance(30) {
+		root = List(root, Map(Entry{x1, Map(Entry{y1, leaf()})}))
+	}
+	tc.Root = root
+	return tc
 }
